@@ -123,11 +123,12 @@ Theorem export_sealed_blames :
   forall ev m k t l, deep ev (S m) (VSealed k t l) = Err (Blame (lpol l)).
 Proof. reflexivity. Qed.
 
+(* elements are forced from right to left *)
 Theorem export_sealed_element_blames :
   forall ev m th ts k t l,
     ev th = Ok (VSealed k t l) ->
-    deep ev (S m) (VArr (th :: ts)) = Err (Blame (lpol l)).
-Proof. intros. cbn [deep bind]. rewrite H. reflexivity. Qed.
+    deep ev (S m) (VArr (ts ++ [th])) = Err (Blame (lpol l)).
+Proof. intros. cbn [deep bind]. rewrite rev_unit. rewrite H. reflexivity. Qed.
 
 (* ------------------------------------------------------------------ at the level of contracts *)
 
